@@ -177,7 +177,7 @@ Definition row_of (p : pushed) (r : trow) : Prop :=
    the span's flattened attributes (order immaterial: for OTLP it comes from a Go map) *)
 Definition tags_of (p : pushed) (tags : list arow) : Prop :=
   (forall a, In a tags -> a_trace a = p_trace p /\ a_span a = p_span p /\ a_ts a = p_ts p /\ a_dur a = p_dur p /\
-                          a_date a = Z.quot (p_ts p) 1000000000) /\
+                          a_date a = date_of (p_ts p)) /\
   Permutation (map kv_of tags) (p_tags p).
 
 Definition span_rows_of (p : pushed) (sr : span_rows) : Prop := row_of p (fst sr) /\ tags_of p (snd sr).
@@ -188,7 +188,8 @@ Definition reads_back (check_parent : bool) (p : pushed) (o : option rspan) : Pr
     rs_trace r = p_trace p /\ rs_span r = p_span p /\ (check_parent = true -> rs_parent r = p_parent p) /\
     rs_name r = p_name p /\ rs_start r = to_u64 (p_ts p) /\ rs_end r = to_u64 (wrap64 (p_ts p + p_dur p)) /\
     (forall k v, In (k, v) (p_attrs p) -> In (k, v) (rs_attrs r)) /\
-    (p_ordered p = false -> rs_attrs r = p_attrs p).
+    (p_ordered p = false -> rs_attrs r = p_attrs p) /\
+    (p_ordered p = true -> exists extra, rs_attrs r = (p_attrs p ++ extra)%list /\ Forall (fun kv => synth_key (fst kv) = true) extra).
 
 (* ================================================================== on_span *)
 Lemma on_span_some ptype tid sid ts dur parent name svc pl kv row tags :
@@ -197,7 +198,7 @@ Lemma on_span_some ptype tid sid ts dur parent name svc pl kv row tags :
   row = {| t_trace := tid; t_span := sid; t_parent := parent; t_name := name; t_ts := ts; t_dur := dur;
            t_service := svc; t_ptype := ptype; t_payload := pl |} /\
   map kv_of tags = kv /\
-  (forall a, In a tags -> a_trace a = tid /\ a_span a = sid /\ a_ts a = ts /\ a_dur a = dur /\ a_date a = Z.quot ts 1000000000).
+  (forall a, In a tags -> a_trace a = tid /\ a_span a = sid /\ a_ts a = ts /\ a_dur a = dur /\ a_date a = date_of ts).
 Proof.
   unfold on_span, id_widths_ok. intros H.
   destruct (Nat.eqb_spec (String.length tid) 16) as [Ht|]; [|discriminate].
@@ -701,6 +702,23 @@ Proof.
   rewrite Hl. cbn [Nat.ltb Nat.leb]. rewrite <- Hl, substring_all. tauto.
 Qed.
 
+Lemma read_endpoint_synth name fs :
+  (forall x, synth_key (name ++ "." ++ x) = true) ->
+  Forall (fun kv => synth_key (fst kv) = true) (fst (read_endpoint name fs)).
+Proof.
+  intros Hs. unfold read_endpoint. destruct (jget name fs) as [[| | | | |ep|]|]; cbn [fst]; try constructor.
+  apply Forall_app. split.
+  - apply Forall_forall. intros [k v] Hin. apply in_flat_map in Hin. destruct Hin as [a [_ Hin]].
+    destruct (jget_str a ep); [|contradiction]. destruct Hin as [E|[]]. inversion E. cbn [fst]. apply Hs.
+  - destruct (jget "port" ep) as [[| | | | | |]|]; try constructor.
+    destruct (in_int64 z && negb (z =? 0)); constructor; [apply Hs|constructor].
+Qed.
+
+Lemma synth_local x : synth_key ("localEndpoint" ++ "." ++ x) = true.
+Proof. reflexivity. Qed.
+Lemma synth_remote x : synth_key ("remoteEndpoint" ++ "." ++ x) = true.
+Proof. unfold synth_key. apply orb_true_intro. right. reflexivity. Qed.
+
 Lemma zipkin_read_one es_all i e sr st' p :
   decode_span fixed (set_payload z_init (PRef i)) e = Some (sr, st') -> z_wellformed e = true -> zipkin_pushed e = Some p ->
   nth_error es_all (N.to_nat i) = Some e ->
@@ -712,7 +730,14 @@ Proof.
   destruct (zipkin_pushed_fields _ _ Hp) as [Fname [Fpar [Fattrs Ford]]].
   destruct Hrow as [Rt [Rs [_ [_ [Rts [Rdur [_ [Lt Ls]]]]]]]].
   unfold parse_zipkin. rewrite Lt, Ls. cbn [Nat.ltb Nat.leb orb].
+  pose proof (read_endpoint_synth "localEndpoint" fs synth_local) as Sl.
+  pose proof (read_endpoint_synth "remoteEndpoint" fs synth_remote) as Sr.
   destruct (read_endpoint "localEndpoint" fs) as [la ls]. destruct (read_endpoint "remoteEndpoint" fs) as [ra rs].
+  cbn [fst] in Sl, Sr.
+  set (svc0 := match ls with
+               | Some s => if String.eqb s "" then match rs with Some s' => s' | None => "" end else s
+               | None => match rs with Some s' => s' | None => "" end
+               end).
   eexists. split; [reflexivity|]. cbn [rs_trace rs_span rs_parent rs_name rs_start rs_end rs_attrs].
   rewrite (substring_full 16 _ Lt), (substring_full 8 _ Ls), Rts, Rdur.
   split; [exact Rt|]. split; [exact Rs|]. split.
@@ -721,7 +746,9 @@ Proof.
     apply Nat.eqb_eq in Hg. rewrite Hg. cbn [Nat.eqb]. now rewrite (hex_decode_len16 _ _ Hg Fpar).
   - split; [now rewrite Fname|]. split; [reflexivity|]. split; [reflexivity|]. split.
     + intros k v Hin. rewrite Fattrs in Hin. apply in_or_app. left. exact Hin.
-    + rewrite Ford. discriminate.
+    + split; [rewrite Ford; discriminate|]. intros _. exists (la ++ ra ++ [(k_service, AStr svc0)])%list.
+      rewrite Fattrs. split; [reflexivity|].
+      apply Forall_app. split; [exact Sl|]. apply Forall_app. split; [exact Sr|]. constructor; [reflexivity|constructor].
 Qed.
 
 Lemma zipkin_read_from nd es_all es : forall i st rows ps,
@@ -774,7 +801,7 @@ Proof.
   rewrite Hts, Hdur, T1, T2, Hattrs, Ht, Hsp, Hpa, Hn.
   cbn [parse_otlp rs_trace rs_span rs_parent rs_name rs_start rs_end with_attrs o_trace o_span o_parent o_name o_start o_end].
   split; [reflexivity|]. split; [reflexivity|]. split; [reflexivity|]. split; [reflexivity|]. split; [reflexivity|]. split; [reflexivity|].
-  rewrite Hra. split; [intros k v H; exact H|reflexivity].
+  rewrite Hra. split; [intros k v H; exact H|]. split; [reflexivity|]. rewrite Hord. discriminate.
 Qed.
 
 Lemma otlp_read_back b rows ps :
